@@ -61,7 +61,27 @@ def gen_script(rng, mi, ms, lim):
                     'push2_past', 'raw', 'loop_count', 'reverse_swap',
                     'cache_flood', 'split_concat', 'nested_loops', 'eval_rec',
                     'merkle_eval', 'big_item', 'depth_items', 'producer',
-                    'producer'))
+                    'producer', 'exact_chain', 'exact_chain'))
+    if k == 'exact_chain':
+        # d evaluations nested in each other, each level reached through a
+        # random one of the evaluating instructions: the run must end in an
+        # error exactly when d exceeds the call-stack limit
+        from . import c09
+        d = max(1, lim + rng.choice((-1, 0, 1, 1, 2, 3))) if lim <= 16 \
+            else rng.choice((1, 3, 6))
+        body = O('TRUE') + O('POP0')
+        kinds = []
+        for _ in range(d):
+            w = rng.choice(('EVAL', 'TAPROOT', 'MERKLEVAL', 'TAPROOT', 'CALL'))
+            if len(body) > 700 and w != 'CALL':
+                w = 'EVAL'
+            kinds.append(w)
+            if w == 'CALL':
+                h = 30 + len(kinds)
+                body = isa.DEF(h, body) + isa.CALL(h)
+            else:
+                body = c09.place((w,), body)
+        return 'exact_chain:' + str(d), body
     if k == 'producer':
         # small items, then an instruction whose RESULT can be larger than
         # its operands (fixed-size digests, floats, carries, padded values)
@@ -344,7 +364,7 @@ INTERP_FAIL = (RecursionError, MemoryError, SystemError, OverflowError)
 def judge(ctx, case):
     script, mi, ms, lim = case['script'], case['mi'], case['ms'], case['lim']
     ctx.evaluated()
-    ctx.tab('template', case['tmpl'])
+    ctx.tab('template', case['tmpl'].split(':')[0])
     mon, iexc = run_instrumented(script, mi, ms, lim, case.get('rt', False),
                                  case.get('entry'))
     ctx.tab('entry', 'run_tape' if case.get('rt') else
@@ -383,6 +403,16 @@ def judge(ctx, case):
         ctx.violation(key, f'script ended with {type(exc).__name__} instead '
                       'of a script-execution error', case, 'script error',
                       repr(exc)[:120])
+    if case['tmpl'].startswith('exact_chain:') and ms >= 64 and mi >= 8:
+        d = int(case['tmpl'].split(':')[1])
+        if d > lim and exc is None:
+            ctx.violation('chain-over-limit', f'{d} evaluations nested in '
+                          f'each other ran to the end under call-stack limit '
+                          f'{lim}', case, 'script error', 'no error')
+        elif d <= lim and exc is not None and len(script) < 1000:
+            ctx.violation('chain-within-limit-refused', f'{d} nested '
+                          f'evaluations raised under call-stack limit {lim}',
+                          case, 'no error', repr(exc)[:100])
     if isinstance(auth, tuple):
         ctx.violation('auth-entry-points-differ', 'run_auth_scripts and '
                       'run_auth_script give different verdicts under the '
